@@ -93,10 +93,11 @@ Confluent ==
                 sto(x) == C!StoreFullTx(x, tip, t, Ins(t), Outs(t), h2, e)
             IN  Proj(UNION { sto(x) : x \in rep(cs) }) = Proj(UNION { rep(x) : x \in sto(cs) })
 
-\* NOT a theorem (see notes/c01-coins-report.md, "conflicting spenders"): of several conflicting spenders remembered for
-\* a coin that arrives later the wallet links one; if another of them is later reported mined by a status update, the
-\* coin is spent by a mined transaction the wallet has full data of and may still be counted.  TLC refutes this
-\* statement on the transcription (cfg MC_Coins_conflict.cfg) - the counterexample is the history.
+\* NOT a theorem of this (relational) transcription - it is what C01 demands on top of it, and what Trace_Coins enforces
+\* on the real wallet (KnownSpendersLaw): a coin is not counted while a stored transaction the wallet knows to be mined
+\* spends it.  A wallet that links only one of several conflicting spenders remembered for a coin that arrives later (as
+\* the pinned code does) breaks it; TLC shows how (cfg MC_Coins_conflict.cfg): the counterexample is the history of the
+\* known finding C01-conflicting-spenders-one-linked (notes/c01-coins-report.md).
 KnownMinedSpenderWins ==
     \A k \in cs.smap : (k[2] \in Known /\ MinedBelowTarget(k[1])) => ~C!Counted(cs, k[2], target)
 
